@@ -1,4 +1,5 @@
 import Verif.Impl.Verdict
+import Verif.Spec.Isa
 import Driver.Util
 /-  `verdict` and `suite` verbs (property C09). -/
 namespace Driver
@@ -15,11 +16,26 @@ def numItersOf (kind : String) : NumIters :=
 
 def assertTrueOf (kind : String) : Bool := kind == "true" || kind == "truemsg"
 
+/-- a driver kind `undef.<model>.<code>` (INX, the code, BRKs) claims that the data sheets define no instruction
+    for the code on that model: `some true` when the specification's decoder agrees, `some false` when the
+    specification has an instruction for it (the request is then not a faulting driver and is refused), `none`
+    for every other driver kind -/
+def undefClaim (bin : String) : Option Bool :=
+  match bin.splitOn "." with
+  | ["undef", m, hh] =>
+    let model? : Option Verif.CpuModel :=
+      if m == "6502" then some .m6502 else if m == "65C02" then some .m65C02 else none
+    match model?, parseByte hh with
+    | some model, some opc => some (Verif.Spec.decode model opc).isNone
+    | _, _ => some false
+  | _ => none
+
 def handleVerdict (line : String) : String :=
   match line.splitOn " => " with
   | [req, res] =>
     match words req with
     | [_, bin, ni, assertsS, arrangeErrAt, broken] =>
+      if undefClaim bin == some false then "bad" else
       let asserts := assertsS.splitOn ","
       let arrErr := arrangeErrAt.toInt?.getD (-1)
       -- a fault in the trap function is a fault of the run (the Go wrapper panics, RunExt recovers)
@@ -49,7 +65,8 @@ def handleSuite (line : String) : String :=
   | [req, res] =>
     match words req with
     | [_, vs] =>
-      let verdicts := (vs.splitOn ",").map (· == "1")
+      -- `1` / `0`: the case passes / fails; a trailing `l`: its case file is a symbolic link (a case file like any other)
+      let verdicts := (vs.splitOn ",").map (fun v => v == "1" || v == "1l")
       -- directory order is arbitrary: only the overall result and, on success, the count are determined
       let allOk := verdicts.all id
       let model := if (suite verdicts).1 then s!"ok {(suite verdicts).2}" else "fail"
